@@ -8,7 +8,7 @@ META = dict(
     bounds='ObjectCache<int, Obj*>: 2 users (acquire with constructor outcome ok / fail / slow, hold across a yield, release plain or recycling) over 1 key (quick) or 2 keys, plus a timer actor calling expire() with a symbolic clock (3-thread jobs); '
            'cooperative scheduling, <= 8-10 slices',
     outside='ObjectCacheV2; destroy=true recycling; failure_cooldown > 0; num_limit eviction; the Timer thread itself (its firing is an actor); multi-vCPU pre-emption inside expirecontainer.cpp',
-    assumptions=['contract-level sync layer rt/ksync.h', 'constructor delegate replaced by a harness-side specialisation (direct call)', 'unordered_set bucket policy stand-in (one growth to 5 buckets)',
+    assumptions=['contract-level sync layer rt/ksync.h', 'constructor delegate replaced by a harness-side specialisation (direct call)', 'std::unordered_set<Item*> replaced by a 4-slot array stand-in keyed through the real ItemEqual',
                  'cached objects are heap blocks: use after destruction is detected by the deallocated-object check'],
 )
 SRC = 'C19/h_objcache.cpp'
@@ -17,6 +17,6 @@ TMAP = ['--map', r'^@_ZN6photon13thread_createEPFPvS0_ES0_m[a-z]+$=verif_thread_
 def jobs(tier):
     q = tier == 'quick'
     J = []
-    J.append(ksjob('oc_2users_1key', SRC, 2, 8, ['ONE_KEY'], desc='2 users of one key: construct / share / release / recycle', stuck_legal=False, timeout=1200, unwind=4, mem_gb=10, extra_ir2c=TMAP, shims=['c19_stubs.c']))
-    J.append(ksjob('oc_2users_expire', SRC, 3, 9, ['ONE_KEY', 'NO_RECYCLE'], desc='2 users of one key + timer-driven expire() at an arbitrary point', stuck_legal=False, timeout=1500, unwind=4, mem_gb=12, extra_ir2c=TMAP, shims=['c19_stubs.c']))
+    J.append(ksjob('oc_2users_1key', SRC, 2, 8, ['ONE_KEY'], desc='2 users of one key: construct / share / release / recycle', stuck_legal=False, timeout=1200, unwind=5, mem_gb=10, extra_ir2c=TMAP, shims=['c19_stubs.c']))
+    J.append(ksjob('oc_2users_expire', SRC, 3, 9, ['ONE_KEY', 'NO_RECYCLE'], desc='2 users of one key + timer-driven expire() at an arbitrary point', stuck_legal=False, timeout=1500, unwind=5, mem_gb=12, extra_ir2c=TMAP, shims=['c19_stubs.c']))
     return J
